@@ -537,6 +537,9 @@ class Edit(Text):
 
         pos = text_layout.calc_pos(self.get_text()[0], trans, x, y)
         e_pos = min(max(pos - len(self.caption), 0), len(self.edit_text))
+        if isinstance(self.edit_text, bytes) and e_pos < len(self.edit_text):
+            # a masked byte string shows one mask per byte: stay on the first byte of the character
+            e_pos = move_prev_char(self.edit_text, 0, e_pos + 1)
         self.edit_pos = e_pos
         self.pref_col_maxcol = x, maxcol
         self._invalidate()
